@@ -449,6 +449,12 @@ func (s *skel) call(cx *sctx, c *ast.CallExpr) bud {
 						// a closure must not call back into the map
 						switch t {
 						case "Now", "Dflt", "Cb", "UserFn":
+						case "Fire":
+							// the evicted callback invoked under the bucket lock: a primitive of its own, which no model program has
+							if n > 0 {
+								b = b.add(bud{"FireLocked": n})
+								s.notes = append(s.notes, fmt.Sprintf("%s: closure handed to items.%s invokes the evicted callback (under the bucket lock)", cx.method, m))
+							}
 						default:
 							if n > 0 {
 								s.fail("%s: closure handed to items.%s performs %s", cx.method, m, t)
@@ -524,7 +530,7 @@ var coqTok = map[string]string{
 	"Clear": "TClear", "Size": "TSize", "Range": "TSnapshot", "Now": "TNow", "Dflt": "TDflt", "WDflt": "TWDflt",
 	"Cb": "TCb", "WCb": "TWCb", "Fire": "TFire", "UserFn": "TUserFn",
 	// map methods the models do not use, and whatever the translator could not account for
-	"LoadOrStore": "TLoadOrStore", "LoadAndStore": "TLoadAndStore", "LoadOrCompute": "TLoadOrCompute", "Unknown": "TUnknown",
+	"LoadOrStore": "TLoadOrStore", "LoadAndStore": "TLoadAndStore", "LoadOrCompute": "TLoadOrCompute", "Unknown": "TUnknown", "FireLocked": "TFireLocked",
 }
 
 // skeletonFacts renders the budgets of the public methods as Coq definitions
